@@ -640,6 +640,54 @@ static void ex_case(uint64_t idx, void *ctx)
     mc_outcome((uint64_t) sub_ok * 2 + (uint64_t) spl_ok + idx * 4);
 }
 
+/* ------------------------------------------------------------------ the comparison family on characters from every band of the code table, and texts of numbers at the ends of the word */
+static const char *CW[] = { "", "a", "A", "b", "Z", "z", "_", "[", "`", "@", "{", "^", "0", "a_", "aB", "A_", "ab", "AB", "a[", "foo_bar", "fooBar", "FOO`bar", "\xe9", "\xc9", "a\xe9" };
+#define NCW ((int) (sizeof CW / sizeof CW[0]))
+static void cw_desc(uint64_t idx, void *ctx, char *b, size_t n) { (void) ctx; snprintf(b, n, CLS " cmp, casecmp, ncmp, ncasecmp (and their _with_ptr twins, counts 0..8) of \"%s\" against \"%s\"", CW[idx / NCW], CW[idx % NCW]); }
+static void cw_case(uint64_t idx, void *ctx)
+{
+    const char *x = CW[idx / NCW], *y = CW[idx % NCW]; (void) ctx;
+    const char *shape = "comparison table"; mc_set_shape(shape);
+    T o = F(new_from_ptr)((spif_charptr_t) x), ot = F(new_from_ptr)((spif_charptr_t) y); char *hy = mc_heapstr(y);
+#define CW_CK(fn, got, exp, ...) do { int g_ = cmpv((got)), e_ = (exp); if (g_ != e_) { char w_[120]; snprintf(w_, sizeof w_, __VA_ARGS__); FAIL(CLS "_" #fn, "model:order", shape, "%s gives %d, the ideal comparison %d", w_, g_, e_); } } while (0)
+    CW_CK(cmp, F(cmp)(o, ot), sgn(strcmp(x, y)), "cmp(\"%s\",\"%s\")", x, y);
+    CW_CK(casecmp, F(casecmp)(o, ot), sgn(strcasecmp(x, y)), "casecmp(\"%s\",\"%s\")", x, y);
+    CW_CK(cmp_with_ptr, F(cmp_with_ptr)(o, (spif_charptr_t) hy), sgn(strcmp(x, y)), "cmp_with_ptr(\"%s\",\"%s\")", x, y);
+    CW_CK(casecmp_with_ptr, F(casecmp_with_ptr)(o, (spif_charptr_t) hy), sgn(strcasecmp(x, y)), "casecmp_with_ptr(\"%s\",\"%s\")", x, y);
+    for (int c = 0; c <= 8; c++) {
+        CW_CK(ncmp, F(ncmp)(o, ot, c), sgn(strncmp(x, y, (size_t) c)), "ncmp(\"%s\",\"%s\",%d)", x, y, c);
+        CW_CK(ncasecmp, F(ncasecmp)(o, ot, c), sgn(strncasecmp(x, y, (size_t) c)), "ncasecmp(\"%s\",\"%s\",%d)", x, y, c);
+        CW_CK(ncmp_with_ptr, F(ncmp_with_ptr)(o, (spif_charptr_t) hy, c), sgn(strncmp(x, y, (size_t) c)), "ncmp_with_ptr(\"%s\",\"%s\",%d)", x, y, c);
+        CW_CK(ncasecmp_with_ptr, F(ncasecmp_with_ptr)(o, (spif_charptr_t) hy, c), sgn(strncasecmp(x, y, (size_t) c)), "ncasecmp_with_ptr(\"%s\",\"%s\",%d)", x, y, c);
+    }
+    free(hy); F(del)(ot); F(del)(o);
+    if (idx / NCW != idx % NCW) mc_nontrivial();
+    mc_outcome((uint64_t) (sgn(strcmp(x, y)) + 1) * 3 + (uint64_t) (sgn(strcasecmp(x, y)) + 1));
+}
+static const char *NT[] = { "0", "7", "-1", "+5", "  42", "077", "0x1F", "1e3", "zz", "", "2147483647", "2147483648", "4294967295", "4294967296", "-2147483649", "9223372036854775807", "9223372036854775808",
+                            "18446744073709551615", "18446744073709551616", "-9223372036854775808", "-9223372036854775809", "0x7fffffffffffffff", "0x8000000000000000", "0xffffffffffffffff", "1777777777777777777777",
+                            "3w5e11264sgsf", "3w5e11264sgsg", "1.5", "-0.0", "1e308", "1e309", "0x1p4", "nan", "inf", "12abc" };
+#define NNT ((int) (sizeof NT / sizeof NT[0]))
+static void nt_desc(uint64_t idx, void *ctx, char *b, size_t n) { (void) ctx; snprintf(b, n, CLS " \"%s\": to_num in bases 0, 8, 10, 16, 36 and to_float against strtoul/strtod; new_from_num/init_from_num of the parsed value", NT[idx]); }
+static void nt_case(uint64_t idx, void *ctx)
+{
+    const char *x = NT[idx]; (void) ctx; static const int bases[5] = { 0, 8, 10, 16, 36 };
+    const char *shape = strlen(x) >= 18 ? "number text at the ends of the 64-bit word" : "number text"; mc_set_shape(shape);
+    T o = F(new_from_ptr)((spif_charptr_t) x);
+    for (int b = 0; b < 5; b++) { size_t g = F(to_num)(o, bases[b]), ex = (size_t) strtoul(x, NULL, bases[b]);
+        if (g != ex) FAIL(CLS "_to_num", "model:return", shape, "to_num(\"%s\", base %d)=%zu, strtoul gives %zu", x, bases[b], g, ex); }
+    { double g = F(to_float)(o), ex = strtod(x, NULL);
+      if (!(g == ex || (isnan(g) && isnan(ex)))) FAIL(CLS "_to_float", "model:return", shape, "to_float(\"%s\")=%g, strtod gives %g", x, g, ex); }
+    if (strcmp((char *) o->s, x)) FAIL(CLS "_to_num", "model:original-changed", shape, "the text changed");
+    { long v = strtol(x, NULL, 10); char ex[40]; snprintf(ex, sizeof ex, "%ld", v);
+      T n = F(new_from_num)(v);
+      if (!n || !n->s || strcmp((char *) n->s, ex) || n->len != (IDX) strlen(ex) || n->size <= n->len) FAIL(CLS "_new_from_num", "model:text", shape, "new_from_num(%ld) holds \"%.40s\"", v, n && n->s ? (char *) n->s : "(null)");
+      if (n) F(del)(n); }
+    F(del)(o);
+    mc_nontrivial();
+    mc_outcome(idx);
+}
+
 /* ------------------------------------------------------------------ long texts: every operation once on a text of n characters, n around 127/255/256/4096/65536 */
 static const int LT[] = { 126, 127, 128, 254, 255, 256, 257, 4094, 4095, 4096, 4097, 32767, 32768, 65534, 65535, 65536, 65537 };
 #define NLT ((int) (sizeof LT / sizeof LT[0]))
@@ -759,6 +807,7 @@ int main(int argc, char **argv)
     if (!mc_arg("only", NULL) || !strcmp(mc_arg("only", ""), "ctor"))
         mc_e2_level(CLS "_stream_ctor", g_k * 10 + g_dev, (uint64_t) NSRC * 6 * NLENS, sc_case, sc_desc, NULL);
     if (!mc_arg("only", NULL)) mc_e2_level(CLS "_extreme_index", 64, (uint64_t) NEXT * NEXT, ex_case, ex_desc, NULL);
+    if (!mc_arg("only", NULL)) { mc_e2_level(CLS "_comparison_table", NCW, (uint64_t) NCW * NCW, cw_case, cw_desc, NULL); mc_e2_level(CLS "_number_texts", NNT, (uint64_t) NNT, nt_case, nt_desc, NULL); }
     if (!mc_arg("only", NULL)) mc_e2_level(CLS "_long_text", 65537, (uint64_t) NLT * NLO, lt_case, lt_desc, NULL);
     if (!mc_arg("only", NULL)) { mc_e2_level(CLS "_stream_history", 1, 30, sh_case, sh_desc, NULL); mc_e2_level(CLS "_fd_hard_error", 1, NHE, he_case, he_desc, NULL); }
     if (!mc_arg("only", NULL)) { int maxn = (int) mc_arg_int("spmax", mc_thorough() ? 9000 : 700); mc_e2_level(CLS "_sprintf_len", maxn, (uint64_t) (maxn + 1) * 3, sp_case, sp_desc, NULL); }
